@@ -256,6 +256,74 @@ def Coord.reload {C E} (s : Coord C) (load : Except E C) (subsOk : Bool) : Coord
   | .error _ => (s, false)
   | .ok c => ({ config := some c, applied := c :: s.applied }, subsOk)
 
+/-! ### the reloader: the subscriber that applies a loaded configuration (app/reloader.go `reload`) -/
+
+/-- what a step of the reload does to the running instance WHEN IT SUCCEEDS -/
+inductive Effect where
+  | none         -- builds something new, touches nothing that runs
+  | aux          -- re-targets a long-lived helper (tracer provider, event-recorder outputs)
+  | stopOld      -- stops the running inhibitor / dispatcher
+  | publishApi   -- `apih.Update`: the configuration the API serves
+  | startNew     -- starts and publishes the new inhibitor / dispatcher
+  deriving DecidableEq, Repr
+
+structure Step where
+  name     : String
+  fallible : Bool
+  effect   : Effect
+  deriving DecidableEq, Repr
+
+/-- the configuration-scoped part of the running instance -/
+structure Live (C : Type) where
+  running : Option C := none     -- the configuration whose dispatcher + inhibitor are alive (none: nothing routes)
+  served  : Option C := none     -- what the status API shows
+  aux     : Option C := none     -- tracing / event recorder targets
+  deriving DecidableEq, Repr
+
+def Effect.apply {C} (c : C) : Effect → Live C → Live C
+  | .none, s => s
+  | .aux, s => { s with aux := some c }
+  | .stopOld, s => { s with running := Option.none }
+  | .publishApi, s => { s with served := some c }
+  | .startNew, s => { s with running := some c }
+
+/-- Run the steps in order with configuration `c`; `failAt = some k` makes the
+    step at position `k` fail if it can fail (a failing step has no effect and
+    ends the reload).  Returns the state and whether the reload succeeded. -/
+def runSteps {C} : List Step → C → Option Nat → Live C → Live C × Bool
+  | [], _, _, s => (s, true)
+  | st :: rest, c, failAt, s =>
+    if st.fallible ∧ failAt = some 0 then (s, false)
+    else runSteps rest c (failAt.map (· - 1)) (st.effect.apply c s)
+
+/-- the order discipline: once a step has touched the running instance, no later step can fail -/
+def safeOrder : List Step → Bool
+  | [] => true
+  | st :: rest => if st.effect = .none then safeOrder rest else rest.all (fun r => !r.fallible)
+
+/-- `reloader.reload` as it is: templates, receivers (fallible, build only); tracing
+    (the last step that can fail; re-targets the tracer on success); then event
+    recorder, stop old inhibitor + dispatcher, publish to the API, start the new ones. -/
+def reloaderSteps : List Step :=
+  [ ⟨"templates", true, .none⟩, ⟨"receivers", true, .none⟩, ⟨"tracing", true, .aux⟩,
+    ⟨"eventrecorder", false, .aux⟩, ⟨"stop-inhibitor", false, .stopOld⟩, ⟨"stop-dispatcher", false, .stopOld⟩,
+    ⟨"api-update", false, .publishApi⟩, ⟨"start-inhibitor", false, .startNew⟩, ⟨"start-dispatcher", false, .startNew⟩ ]
+
+/-- the application: coordinator + reloader subscriber -/
+structure AppState (C : Type) where
+  coord : Coord C := {}
+  live  : Live C := {}
+
+/-- `Coordinator.Reload` with the reloader as its subscriber: `load` = outcome of
+    `LoadFile`, `failAt` = which reloader step (if any) fails. -/
+def AppState.reload {C E} (steps : List Step) (a : AppState C) (load : Except E C) (failAt : Option Nat) :
+    AppState C × Bool :=
+  match load with
+  | .error _ => (a, false)
+  | .ok c =>
+    let (l, ok) := runSteps steps c failAt a.live
+    ({ coord := (a.coord.reload (.ok c : Except E C) ok).1, live := l }, ok)
+
 /-! ### marshalling with masked secrets -/
 
 inductive Leaf where
